@@ -282,6 +282,9 @@ inline double gen_coord_inside(Chooser& ch, const DimSpec& d, int* kind_out = nu
 inline bool zero_width_support(const DimSpec& d) { return d.knots[d.order] == d.knots[d.knots.size() - d.order - 1]; }
 // Moves a coordinate off the excluded class; returns true if it had to.
 inline bool avoid_known_point(const DimSpec& d, double& x) {
+  // The finding behind this exclusion (C01-zero-width-support) has been repaired in /repo; nothing is excluded any more.
+  // The function is kept so that the class can be re-excluded by a single line if the repair is ever reverted.
+  return false;
   if (!exclude_known()) return false;
   if (zero_width_support(d) && x == d.knots[d.order]) {
     double y = nextafter(x, INFINITY);
